@@ -106,6 +106,18 @@ def gen_cases(rng, tier):
         out.append({"mode": mode, "kind": "ledger", "lines": [line], "device": d, "issue": issue,
                     "connects": [True] if issue else None,
                     "meta": {"shape": shape, "value": value, "known_tx": known_tx, "issue": issue}})
+    # very long request lines (over 1 MiB): the verdict is that of the same document without the padding
+    for mode in ("v5", "v1"):
+        ver = 5 if mode == "v5" else 1
+        for shape, doc in (("version", {"command": "version"}),
+                           ("getPubKey", {"command": "getPubKey", "version": ver, "keyId": gen.PATHS[0]}),
+                           ("getPubKey", {"command": "getPubKey", "version": ver, "keyId": "m/0"})):
+            for pad in ((1 << 20) + 1, 3 << 20):
+                body = json.dumps(doc).encode()
+                line = body[:-1] + b" " * pad + b"}"
+                out.append({"mode": mode, "kind": "ledger", "lines": [line], "device": gen.random_device(rng),
+                            "nocompare": True,
+                            "meta": {"shape": shape + "#padded", "value": doc, "known_tx": None, "issue": False}})
     return out
 
 
